@@ -55,6 +55,15 @@ ArchRecs == {None} \cup {R(d, "default") : d \in {"undef", "weakundef", "strong"
 ArchRecsW == ArchRecs \cup {R("weak", "default"), R("common4", "default")}
 File2(k, ra, rb) == [kind |-> k, syms |-> [n \in {"a", "b"} |-> IF n = "a" THEN ra ELSE rb]]
 FilesAB(kinds, recs) == {File2(k, ra, rb) : k \in kinds, ra \in recs, rb \in recs}
+ArchRecsQ == {None, R("undef", "default"), R("strong", "default")}
+(* quick: every reference graph over three objects/members and two names *)
+Arch3Q(x) == Seq3(FilesAB({"obj", "member"}, ArchRecsQ))
+(* roots (-u), weak references and whole-archive members on two files *)
+Arch2U(x) == Seq2(FilesAB(RegKinds, ArchRecs))
+(* thorough: weak references added to the three-file graphs; chains object -> member -> member -> member *)
+Arch3T(x) == Seq3(FilesAB({"obj", "member"}, ArchRecs))
+Arch4C(x) == {<<o, m1, m2, m3>> : o \in FilesAB({"obj"}, ArchRecsQ), m1 \in FilesAB({"member"}, ArchRecsQ),
+                                  m2 \in FilesAB({"member"}, ArchRecsQ), m3 \in FilesAB({"member"}, ArchRecsQ)}
 Arch3(x) == Seq3(FilesAB(RegKinds, ArchRecs))
 Arch3W(x) == Seq3(FilesAB({"obj", "member"}, ArchRecsW))
 Arch4(x) == Seq4(FilesAB({"obj", "member"}, ArchRecs))
@@ -68,6 +77,9 @@ WRecs == {None} \cup {R(d, "default") : d \in {"undef", "strong"}}
 RRecs == {None, R("undef", "default")}
 FilesW == {FileW(k, rs, rw, rr) : k \in {"obj", "member"}, rs \in SRecs, rw \in WRecs, rr \in RRecs}
           \cup {FileW("shared", rs, None, None) : rs \in {None, R("strong", "default")}}
+FW(kinds) == {FileW(k, rs, rw, rr) : k \in kinds, rs \in SRecs \ {R("weak", "default")}, rw \in WRecs, rr \in RRecs}
+ShW == {FileW("shared", rs, None, None) : rs \in {None, R("strong", "default")}}
+Wrap3T(x) == {<<x1, x2, x3>> : x1 \in FW({"obj"}), x2 \in FW({"obj", "member"}), x3 \in FW({"member"}) \cup ShW}
 Wrap3(x) == Seq3(FilesW)
 Wrap2(x) == Seq2(FilesW)
 
@@ -85,6 +97,11 @@ SpaceOf(fam) ==
       [] fam = "Wrap2" -> Wrap2(0)
       [] fam = "PairDup" -> PairDup(0)
       [] fam = "Tiny" -> Tiny(0)
+      [] fam = "Arch3Q" -> Arch3Q(0)
+      [] fam = "Arch2U" -> Arch2U(0)
+      [] fam = "Arch3T" -> Arch3T(0)
+      [] fam = "Arch4C" -> Arch4C(0)
+      [] fam = "Wrap3T" -> Wrap3T(0)
 MCSpace == SpaceOf(Family)
 
 Opt(am, us, ws) == [allowMultiple |-> am, undefs |-> us, wrap |-> ws]
@@ -103,7 +120,7 @@ PerConfig ==
         IN /\ Theorems(an)
            /\ PrintT(<<"REPLAY", ToJson([files |-> files, opts |-> opts, expect |-> an.rule, model |-> an.model,
                                         causes |-> an.causes, loadDiv |-> an.loadDiv, shadow |-> an.shadow,
-                                        commonLazy |-> an.commonLazy])>>)
+                                        commonLazy |-> an.commonLazy, visShared |-> an.visShared])>>)
 (* the same without printing *)
 PerConfigQuiet == IsInitial => Theorems(Analysis(files, opts, want))
 =============================================================================
